@@ -65,6 +65,7 @@ type Exec struct {
 	unwound         map[string]bool
 	postSeen        map[string]int
 	siteSeen        map[*Clause]int
+	ghostSeen       map[*GhostStmt]int
 	entry           *State
 	Bounded         []string
 	specNames       map[*Term]*Term
@@ -90,7 +91,7 @@ func NewExec(p *Program, fn *ssa.Function, fc *FuncContract) *Exec {
 		loopInfo: map[*ssa.Function]*loopAnalysis{}, siteOrd: map[string]int{}, siteName: map[ssa.Instruction]string{},
 		maxPaths: 20000, Inputs: map[string]*Term{}, ParamVals: map[string]Value{},
 		calledExterns: map[string]bool{}, calledContracts: map[string]bool{}, inlined: map[string]bool{},
-		unwound: map[string]bool{}, postSeen: map[string]int{}, siteSeen: map[*Clause]int{}, condLock: map[*Term]Value{}, heldAtEntry: map[string]bool{}, usedPureMethods: map[string]bool{}, boxedTypes: map[string]types.Type{}}
+		unwound: map[string]bool{}, postSeen: map[string]int{}, siteSeen: map[*Clause]int{}, ghostSeen: map[*GhostStmt]int{}, condLock: map[*Term]Value{}, heldAtEntry: map[string]bool{}, usedPureMethods: map[string]bool{}, boxedTypes: map[string]types.Type{}}
 }
 
 func (x *Exec) noteSym(t *Term) { x.syms = append(x.syms, t) }
